@@ -10,6 +10,23 @@ package json
 //@ spec ibOK(p, b) = p != nil && 0 <= p.ib && p.ib + len(b) <= 4611686018427387904
 //@ spec capOK(p) = 1 <= p.maxRecursion && p.maxRecursion <= 65536
 
+// --- G: the JSON grammar of C08/C09 as recursive spec functions over suffix views -----------------
+// Each function gives the number of bytes of the token/value that starts at the beginning of
+// its argument, 0 when there is none. The scanner functions are proved to compute them.
+//@ spec pos0(x) = ite(x > 0, x, 0)
+//@ spec plus(k, r) = ite(r > 0, k + r, 0)
+//@ ghostfun wsLen(bytes) int
+//@ axiom ws_def(b bytes): wsLen(b) == ite(len(b) > 0 && isSpaceB(b[0]), 1 + wsLen(b[1:]), 0)
+//@ spec isHexB(c) = ('0' <= c && c <= '9') || ('a' <= c && c <= 'f') || ('A' <= c && c <= 'F')
+//@ spec isEscB(c) = c == '"' || c == '\\' || c == '/' || c == 'b' || c == 'f' || c == 'n' || c == 'r' || c == 't'
+// strLen(b): b starts inside a string (after the opening quote); length up to and including the
+// closing quote, 0 if the string is not closed or an escape is malformed. Escapes: \" \\ \/ \b \f
+// \n \r \t and \u followed by four hex digits (hexLen(b, j): j hex digits already seen).
+//@ ghostfun strLen(bytes) int
+//@ ghostfun hexLen(bytes, int) int
+//@ axiom str_def(b bytes): strLen(b) == pos0(ite(len(b) == 0, 0, ite(b[0] == '"', 1, ite(b[0] != '\\', plus(1, strLen(b[1:])), ite(len(b) == 1, 0, ite(isEscB(b[1]), plus(2, strLen(b[2:])), ite(b[1] == 'u', plus(2, hexLen(b[2:], 0)), 0)))))))
+//@ axiom hex_def(b bytes, j int): hexLen(b, j) == pos0(ite(j >= 4, strLen(b), ite(len(b) == 0, 0, ite(isHexB(b[0]), plus(1, hexLen(b[1:], j + 1)), 0))))
+
 // jdepth: ghost, the number of containers currently open. The level argument equals the
 // nesting depth, so the recursion cap refuses exactly the documents nested deeper than the cap.
 //@ ghostvar jdepth int
@@ -31,8 +48,11 @@ package json
 //@   ensures [C08_J1] p.ib == old(p.ib) + n
 //@   ensures [spaces] forall j :: 0 <= j && j < n ==> isSpaceB(b[j])
 //@   ensures [maximal] n < len(b) ==> !isSpaceB(b[n])
+//@   ensures [C09_G_ws] n == wsLen(b)
+//@   uses ws_def
 //@   loop 1 invariant isSuffixView(b, old(b)) && n == len(old(b)) - len(b) && 0 <= n && p.ib == old(p.ib) + n
 //@   loop 1 invariant [spaces] forall j :: 0 <= j && j < n ==> isSpaceB(old(b)[j])
+//@   loop 1 invariant [C09_G_ws_inv] wsLen(old(b)) == n + wsLen(b)
 //@   loop 1 decreases len(b)
 
 //@ func json.(*parserState).consumeConst
@@ -50,9 +70,13 @@ package json
 //@   ensures [C08C09_J2] old(p.ib) <= p.ib && p.ib <= old(p.ib) + len(b)
 //@   ensures [C08_J1] n > 0 ==> p.ib == old(p.ib) + n
 //@   ensures [C09_closed] n > 0 ==> b[n-1] == '"'
+//@   ensures [C09_G_str] n == strLen(b)
+//@   uses str_def, hex_def
 //@   loop 1 invariant 0 <= n && n <= len(b) && p.ib == old(p.ib) + n
+//@   loop 1 invariant [C09_G_str_inv] strLen(b) == plus(n, strLen(b[n:]))
 //@   loop 1 decreases len(b) - n
 //@   loop 2 invariant 0 <= n && n <= len(b) && p.ib == old(p.ib) + n && 0 <= j && j <= 4 && n > at(1, n)
+//@   loop 2 invariant [C09_G_hex_inv] strLen(b) == plus(n, hexLen(b[n:], j))
 //@   loop 2 decreases 4 - j
 
 //@ func json.(*parserState).consumeNumber
